@@ -98,6 +98,13 @@ pub fn fused_addassign_mul_scalar_binary(
     if octets.is_empty() {
         return;
     }
+    #[cfg(feature = "verif_hooks")]
+    {
+        let ceiling = verif_kernels::ceiling();
+        if ceiling != verif_kernels::NO_CEILING {
+            return verif_kernels::fma_binary_at(ceiling, false, octets, other, scalar);
+        }
+    }
     #[cfg(all(any(target_arch = "x86", target_arch = "x86_64"), feature = "std"))]
     {
         if is_x86_feature_detected!("avx512f") && is_x86_feature_detected!("avx512bw") {
@@ -614,6 +621,13 @@ unsafe fn mulassign_scalar_ssse3(octets: &mut [u8], scalar: &Octet) {
 
 #[inline]
 pub fn mulassign_scalar(octets: &mut [u8], scalar: &Octet) {
+    #[cfg(feature = "verif_hooks")]
+    {
+        let ceiling = verif_kernels::ceiling();
+        if ceiling != verif_kernels::NO_CEILING {
+            return verif_kernels::mulassign_scalar_at(ceiling, false, octets, scalar);
+        }
+    }
     #[cfg(all(any(target_arch = "x86", target_arch = "x86_64"), feature = "std"))]
     {
         if is_x86_feature_detected!("avx512f") && is_x86_feature_detected!("avx512bw") {
@@ -828,6 +842,13 @@ pub fn fused_addassign_mul_scalar(octets: &mut [u8], other: &[u8], scalar: &Octe
     );
 
     assert_eq!(octets.len(), other.len());
+    #[cfg(feature = "verif_hooks")]
+    {
+        let ceiling = verif_kernels::ceiling();
+        if ceiling != verif_kernels::NO_CEILING {
+            return verif_kernels::fma_at(ceiling, false, octets, other, scalar);
+        }
+    }
     #[cfg(all(any(target_arch = "x86", target_arch = "x86_64"), feature = "std"))]
     {
         if is_x86_feature_detected!("avx512f") && is_x86_feature_detected!("avx512bw") {
@@ -1045,6 +1066,13 @@ unsafe fn add_assign_ssse3(octets: &mut [u8], other: &[u8]) {
 
 #[inline]
 pub fn add_assign(octets: &mut [u8], other: &[u8]) {
+    #[cfg(feature = "verif_hooks")]
+    {
+        let ceiling = verif_kernels::ceiling();
+        if ceiling != verif_kernels::NO_CEILING {
+            return verif_kernels::add_assign_at(ceiling, false, octets, other);
+        }
+    }
     #[cfg(all(any(target_arch = "x86", target_arch = "x86_64"), feature = "std"))]
     {
         if is_x86_feature_detected!("avx512f") {
@@ -1081,6 +1109,153 @@ pub fn add_assign(octets: &mut [u8], other: &[u8]) {
         // }
     }
     return add_assign_fallback(octets, other);
+}
+
+// Verification hooks: safe wrappers around the private kernels and a process-wide dispatch
+// ceiling, so that each instruction-set path can be exercised on one host.
+#[cfg(feature = "verif_hooks")]
+pub mod verif_kernels {
+    use super::*;
+    use std::sync::atomic::{AtomicU8, Ordering};
+
+    pub const PORTABLE: u8 = 0;
+    pub const SSSE3: u8 = 1;
+    pub const AVX2: u8 = 2;
+    pub const AVX512: u8 = 3;
+    pub const NO_CEILING: u8 = 255;
+
+    static CEILING: AtomicU8 = AtomicU8::new(NO_CEILING);
+
+    pub fn ceiling() -> u8 {
+        CEILING.load(Ordering::Relaxed)
+    }
+
+    pub fn set_ceiling(level: u8) {
+        CEILING.store(level, Ordering::Relaxed);
+    }
+
+    #[cfg(any(target_arch = "x86", target_arch = "x86_64"))]
+    fn has(level: u8, needs_bw: bool, needs_bmi1: bool) -> bool {
+        match level {
+            PORTABLE => true,
+            SSSE3 => is_x86_feature_detected!("ssse3"),
+            AVX2 => {
+                is_x86_feature_detected!("avx2")
+                    && (!needs_bmi1 || is_x86_feature_detected!("bmi1"))
+            }
+            AVX512 => {
+                is_x86_feature_detected!("avx512f")
+                    && (!needs_bw || is_x86_feature_detected!("avx512bw"))
+            }
+            _ => false,
+        }
+    }
+
+    #[cfg(not(any(target_arch = "x86", target_arch = "x86_64")))]
+    fn has(level: u8, _needs_bw: bool, _needs_bmi1: bool) -> bool {
+        level == PORTABLE
+    }
+
+    // Whether the exact kernel `level` of operation `op` ("add", "mul", "fma", "fmabin")
+    // exists and is supported by this CPU.
+    pub fn supported(op: &str, level: u8) -> bool {
+        match op {
+            "add" => has(level, false, false),
+            "mul" | "fma" => has(level, true, false),
+            "fmabin" => level != SSSE3 && has(level, true, true),
+            _ => false,
+        }
+    }
+
+    // Highest supported level not above `ceiling` (exact = false), or `ceiling` itself
+    // (exact = true; panics when unsupported).
+    fn pick(op: &str, ceiling: u8, exact: bool) -> u8 {
+        if exact {
+            assert!(supported(op, ceiling), "kernel not supported on this host");
+            return ceiling;
+        }
+        let mut level = core::cmp::min(ceiling, AVX512);
+        while !supported(op, level) {
+            level -= 1;
+        }
+        level
+    }
+
+    pub fn add_assign_at(ceiling: u8, exact: bool, octets: &mut [u8], other: &[u8]) {
+        match pick("add", ceiling, exact) {
+            #[cfg(any(target_arch = "x86", target_arch = "x86_64"))]
+            AVX512 => unsafe { add_assign_avx512(octets, other) },
+            #[cfg(any(target_arch = "x86", target_arch = "x86_64"))]
+            AVX2 => unsafe { add_assign_avx2(octets, other) },
+            #[cfg(any(target_arch = "x86", target_arch = "x86_64"))]
+            SSSE3 => unsafe { add_assign_ssse3(octets, other) },
+            _ => add_assign_fallback(octets, other),
+        }
+    }
+
+    pub fn mulassign_scalar_at(ceiling: u8, exact: bool, octets: &mut [u8], scalar: &Octet) {
+        match pick("mul", ceiling, exact) {
+            #[cfg(any(target_arch = "x86", target_arch = "x86_64"))]
+            AVX512 => unsafe { mulassign_scalar_avx512(octets, scalar) },
+            #[cfg(any(target_arch = "x86", target_arch = "x86_64"))]
+            AVX2 => unsafe { mulassign_scalar_avx2(octets, scalar) },
+            #[cfg(any(target_arch = "x86", target_arch = "x86_64"))]
+            SSSE3 => unsafe { mulassign_scalar_ssse3(octets, scalar) },
+            _ => mulassign_scalar_fallback(octets, scalar),
+        }
+    }
+
+    pub fn fma_at(ceiling: u8, exact: bool, octets: &mut [u8], other: &[u8], scalar: &Octet) {
+        assert_eq!(octets.len(), other.len());
+        match pick("fma", ceiling, exact) {
+            #[cfg(any(target_arch = "x86", target_arch = "x86_64"))]
+            AVX512 => unsafe { fused_addassign_mul_scalar_avx512(octets, other, scalar) },
+            #[cfg(any(target_arch = "x86", target_arch = "x86_64"))]
+            AVX2 => unsafe { fused_addassign_mul_scalar_avx2(octets, other, scalar) },
+            #[cfg(any(target_arch = "x86", target_arch = "x86_64"))]
+            SSSE3 => unsafe { fused_addassign_mul_scalar_ssse3(octets, other, scalar) },
+            _ => fused_addassign_mul_scalar_fallback(octets, other, scalar),
+        }
+    }
+
+    pub fn fma_binary_at(
+        ceiling: u8,
+        exact: bool,
+        octets: &mut [u8],
+        other: &BinaryOctetVec,
+        scalar: &Octet,
+    ) {
+        assert_eq!(octets.len(), other.len());
+        if octets.is_empty() {
+            return;
+        }
+        let level = if exact {
+            pick("fmabin", ceiling, true)
+        } else if ceiling == SSSE3 {
+            PORTABLE
+        } else {
+            pick("fmabin", ceiling, false)
+        };
+        match level {
+            #[cfg(any(target_arch = "x86", target_arch = "x86_64"))]
+            AVX512 => unsafe { fused_addassign_mul_scalar_binary_avx512(octets, other, scalar) },
+            #[cfg(any(target_arch = "x86", target_arch = "x86_64"))]
+            AVX2 => unsafe { fused_addassign_mul_scalar_binary_avx2(octets, other, scalar) },
+            _ => {
+                // The portable route of the dispatcher, taken with the ceiling applied to the
+                // inner kernels as well.
+                if *scalar == Octet::one() {
+                    add_assign_at(ceiling, false, octets, &other.to_octet_vec())
+                } else {
+                    fma_at(ceiling, false, octets, &other.to_octet_vec(), scalar)
+                }
+            }
+        }
+    }
+
+    pub fn to_octet_vec(vec: &BinaryOctetVec) -> Vec<u8> {
+        vec.to_octet_vec()
+    }
 }
 
 #[cfg(feature = "std")]
